@@ -20,7 +20,7 @@ ID = 'C07'
 LEAN_MODULE = 'CC.Properties.C07'
 LEVEL = 'proof'
 THEOREMS = [
-    'CC.C07_table_total', 'CC.C07_reads_written', 'CC.C07_table_wellformed',
+    'CC.C07_table_total', 'CC.C07_reads_written', 'CC.C07_body_keys_in_reads', 'CC.C07_spec_covers_kinds', 'CC.C07_table_wellformed',
     'CC.C07_one_to_one', 'CC.C07_never_drops', 'CC.C07_nothing_dropped', 'CC.C07_unknown_kind_raises',
     'CC.C07_branch_id_terminals', 'CC.C07_position_independent',
     'CC.C07_faithful_resistor', 'CC.C07_faithful_conductance', 'CC.C07_faithful_impedance', 'CC.C07_faithful_admittance',
@@ -37,6 +37,8 @@ THEOREMS = [
 ]
 OPEN_STATEMENTS = []
 ASSUMPTIONS = [
+    'C07_faithful / C07_harmonic hold for periodic sources only under periodicOK: analysis frequency w >= 0 and resolution 0 <= w_res < w0/2 (known wavetype, internal R / G >= 0); for w < 0 the code raises ValueError, for w_res >= w0/2 the code takes the nearest harmonic and the Spec the lower one (arbitrary tie-break of the Spec) — both outside the property\'s quantifier; the non-periodic kinds carry no condition on w, w_res',
+    'the faithfulness theorems are conditional on Spec.branchOf = some …: C07_spec_covers_kinds shows the Spec has an entry for every constructible kind; a component lacking the values its kind needs has no Spec branch and is judged by the oracle only (an accepted component must translate)',
     'np.cos / np.sin are parameters of the model (trig : Rat → Rat × Rat); the harness passes numpy\'s own values',
     'the harmonic coefficients amplitude(n), phase(n) of periodic_functions.py are parameters (property C08); the harness passes the repo\'s own values',
     'reals are modelled as rationals plus the single extended value inf (Val.inf); only resistor(R = inf), the open switch, is given a meaning: its record NortenElement(Z=inf, V=0) is represented by the open-circuit record (Y=0, I=0), which has the same derived values and predicates; other uses of inf are outside the model',
